@@ -247,7 +247,11 @@ def write_evidence(pid, tier, seed, col, rule, wall, violations, extra=None,
           'level': 'exploration', 'coverage': cov,
           'assumptions': assumptions or [], 'wall_s': round(wall, 2),
           'violations': int(violations)}
-    d = os.path.join(VERIF, 'evidence')
+    # evidence/ holds runs against /repo itself only; sensitivity runs against a scratch
+    # tree (VERIF_REPO) and reduced-budget development runs (VERIF_EVIDENCE_DIR) go elsewhere
+    sub = os.environ.get('VERIF_EVIDENCE_DIR') or (
+        'evidence' if repo_path() == '/repo' else os.path.join('.build', 'mut_evidence'))
+    d = os.path.join(VERIF, sub)
     os.makedirs(d, exist_ok=True)
     tmp = os.path.join(d, pid + '.json.tmp')
     with open(tmp, 'w') as f:
